@@ -36,6 +36,16 @@ func noisyAttr(g *G, tag string) string {
 	}
 	var b strings.Builder
 	used := map[string]bool{}
+	if tag != "blockquote" && tag != "span" && tag != "table" && g.intn(0, 19, "noiserep") == 0 {
+		// the same attribute several times in one start tag
+		k := g.pick("noiserepk", "class", "id", "style")
+		v := map[string]string{"class": "c", "id": "i", "style": "color:#"}[k]
+		for j := 0; j < g.intn(2, 4, "noiserepn"); j++ {
+			g.n++
+			b.WriteString(" " + k + `="` + v + itoa(g.n) + `"`)
+		}
+		used[k] = true
+	}
 	for i := 0; i < n; i++ {
 		a := noiseAttrs[g.intn(0, len(noiseAttrs)-1, "noise")]
 		key := strings.ToLower(strings.SplitN(strings.TrimSpace(a), "=", 2)[0])
